@@ -12,7 +12,8 @@ Engine A.  Reference: mc.models.listmodel.ListModel (a plain list of [spelling, 
   complete projection must be the model's successor (so the implementation's abstract graph is verified
   edge by edge to be the model's graph), and a depth-2 tree is run from every abstract state: as pure
   histories like tree mode (both tiers) and, in the thorough tier, once more with the complete projection
-  also read between the two operations.
+  also read between the two operations.  Where shortest history + extension is no longer than the tree
+  depth the case *is* a tree-mode history and is executed (and counted) there only.
 
 After every checked step: exception class (KeyError for missing keys, ValueError for self-relative
 re-ordering - object unchanged in both cases), result of get / contains / len / iteration, list(d),
@@ -26,7 +27,7 @@ from ..models.listmodel import ListModel, SelfRelativeMissing
 ID = "C09"
 LEVEL = "model_checking"
 RULE = ("states = distinct abstract states (ordered (spelling, value) lists) of the fixpoint, each rebuilt on a real "
-        "object; transitions = operation applications that were checked against the model (replayed prefixes not "
+        "object by its shortest history and compared; transitions = operation applications that were checked against the model (replayed prefixes not "
         "counted); traces = complete histories replayed from a fresh object (tree mode from the three initial "
         "paragraphs, and prefix + 1..2 operations from every abstract state); non-trivial = histories whose last "
         "operation changes the abstract state or takes an error path")
@@ -153,9 +154,9 @@ def model_step(canon, op):
 
 
 def model_obs(canon, keys):
-    r = _OBS.get(canon)
+    r = _OBS.get((canon, keys[0]))
     if r is None:
-        r = _OBS[canon] = model_observe(ListModel(canon), keys)
+        r = _OBS[(canon, keys[0])] = model_observe(ListModel(canon), keys)
     return r
 
 
@@ -248,7 +249,7 @@ def compare(op, expected, observed, mobs, robs, rerr):
             return ("deb822/%s/result" % name, expected[1], observed[1])
     if rerr is not None:
         return ("deb822/%s/%s%s" % (name, after_error, rerr[0]), rerr[1], rerr[2])
-    if mobs is None:        # a step inside an unobserved history: only its outcome is checked
+    if mobs is None or mobs == robs:    # (None: a step inside an unobserved history, only its outcome is checked)
         return None
     for i, comp in enumerate(COMPONENTS):
         if mobs[i] != robs[i]:
@@ -335,6 +336,17 @@ def abstract_states(keys, vals):
     return [(c, seen[c][0], seen[c][1]) for c in order], depth
 
 
+_REPS = {}
+
+
+def representatives(seed):
+    """{(init index, shortest history)} of all abstract states; computed once per process"""
+    if seed not in _REPS:
+        keys, vals = alphabet(seed)
+        _REPS[seed] = set((i, tuple(h)) for _c, i, h in abstract_states(keys, vals)[0])
+    return _REPS[seed]
+
+
 def units(tier, seed):
     """Every unit covers the histories of exactly one length (``level``) from one start state, so that the
     canonical order of units is simplest-first: shorter histories before longer ones, initial paragraphs before
@@ -351,6 +363,8 @@ def units(tier, seed):
 
     def graph(level, observe):
         for n, (c, i, h) in enumerate(states):
+            if observe == "end" and len(h) + level <= TREE_DEPTH[tier]:
+                continue        # shortest history + extension is a tree-mode history from the same initial paragraph
             out.append({"mode": "graph", "state": n, "init": i, "prefix": list(h), "first": None, "level": level,
                         "observe": observe})
     tree(1)
@@ -381,13 +395,15 @@ def run_unit(u, tier, seed):
     part.max_depth = len(prefix) + level
     base = {"keys": keys, "init": init, "prefix": prefix, "observe": u["observe"]}
 
+    applied = [0]
+
     def run(hist):
         info = {}
         bad = execute(keys, init, prefix, hist, every, info)
         part.transitions += 1 if hist else 0
         part.traces += 1
         part.evaluations += 1
-        part.extra["operation applications on real objects, replayed prefixes included"] += len(prefix) + len(hist)
+        applied[0] += len(prefix) + len(hist)
         for sig, exp, obs in bad:
             part.violation(sig, dict(base, history=list(hist)), exp, obs)
         if bad:
@@ -398,24 +414,31 @@ def run_unit(u, tier, seed):
             part.nontrivial += bool(info["nontrivial"])
         return True
 
-    if level == 1:
-        # the start state itself: an initial paragraph, or an abstract state rebuilt by its shortest history
+    reps = representatives(seed)
+    if u["mode"] == "tree" and level == 1 or u["mode"] == "graph" and level == 1 and len(prefix) > TREE_DEPTH[tier]:
+        # the start state itself: an initial paragraph, or an abstract state rebuilt by its shortest history (when
+        # that history is short enough to be a tree-mode history the tree unit does this and counts the state)
         ok = run([])
-        if u["mode"] == "graph":
-            part.states += 1
-            part.extra["abstract states rebuilt on a real object"] += 1
-        if not ok:
-            return part
+        part.states += 1
+    else:
+        ok = not execute(keys, init, prefix, [], every)
+    if not ok:      # reported where the shortest history is a case of its own; nothing is built on a bad state
+        part.extra["operation applications on real objects, replayed prefixes included"] += applied[0]
+        return part
 
     def rec(hist):
         for op in (firsts if not hist else ops):
             h2 = hist + [op]
             if len(h2) == level:
-                if run(h2) and op == ops[-1] and len(part.samples) < 2:
-                    part.sample(dict(base, history=list(h2)))
+                if run(h2):
+                    if u["mode"] == "tree" and (u["init"], tuple(h2)) in reps:
+                        part.states += 1        # this history is the shortest one reaching its abstract state
+                    if op == ops[-1] and len(part.samples) < 2:
+                        part.sample(dict(base, history=list(h2)))
             elif not execute(keys, init, prefix, h2, every):
                 rec(h2)         # a failing proper prefix is reported by the unit of its own length and not extended
     rec([])
+    part.extra["operation applications on real objects, replayed prefixes included"] += applied[0]
     return part
 
 
